@@ -64,6 +64,10 @@ func main() {
 			fatalf("raft backend init: %v", err)
 		}
 	} else {
+		// INCR / SET NX / DEL are read-modify-write transactions: without
+		// conflict detection two concurrent clients both commit on top of the
+		// same snapshot and one update is lost.
+		opt.DetectConflicts = true
 		db = NoKV.Open(opt)
 		backend = newEmbeddedBackend(db)
 	}
